@@ -1084,6 +1084,7 @@ func checkC13(c *Ctx) {
 		h.agreementCase(r, t, i%tokEvery == 0)
 	}
 	h.emptyDocuments(types)
+	c13OpaqueText(c, c.scale(40, 1500))
 	h.probeCaseFold(c.RNG.Fork())
 	res.Notes = append(res.Notes, fmt.Sprintf("token corruptions decoded: %d (errors %d, complete values %d); ill-typed documents: %d", h.nTok, h.nTokErr, h.nTokOK, h.nBad))
 }
